@@ -431,8 +431,13 @@ def _format_segment(seg: Segment, part_values: PartValues) -> FormatedSeg:
     # find all parts, regardless of zero value
     used_parts: typ.List[typ.Tuple[str, str]] = []
 
+    # NOTE: part_values is ordered longest part first. Parts that were found
+    #   are masked, so that their substrings (or a literal digit followed
+    #   by a part, e.g. "20MAJOR") are not mistaken for a shorter part.
+    unmatched_seg = seg
     for part, part_value in part_values:
-        if part in seg:
+        if part in unmatched_seg:
+            unmatched_seg = unmatched_seg.replace(part, " ")
             used_parts.append((part, part_value))
             if version.is_zero_val(part, part_value):
                 zero_part_count += 1
